@@ -231,6 +231,21 @@ class PiecewiseConstantBirthDeath(Distribution):
         )
         B = torch.zeros_like(self.mu, dtype=self.mu.dtype)
         p = torch.ones(self.mu.shape[:-1] + (m + 1,), dtype=self.mu.dtype)
+        # 1 - p, accumulated from non-negative terms only (1 - p computed from p
+        # loses all its digits when the survival probability is small)
+        one_minus_p = torch.zeros_like(p)
+        x = self.lambda_ - self.mu - self.psi
+        # A + x and A - x without cancellation
+        four_lambda_psi = 4.0 * self.lambda_ * self.psi
+        # (denominators of the branch that is not taken are replaced by one: 0/0
+        # there would poison the gradient)
+        ones = torch.ones_like(A)
+        A_plus_x = torch.where(
+            x < 0.0, four_lambda_psi / torch.where(x < 0.0, A - x, ones), A + x
+        )
+        A_minus_x = torch.where(
+            x > 0.0, four_lambda_psi / torch.where(x > 0.0, A + x, ones), A - x
+        )
         # e^{-A(t - t_i)}: no overflow when A (t - t_i) is large
         exp_A_term = torch.exp(-A * (t - t_i))
         inv_2lambda = 1.0 / (2.0 * self.lambda_)
@@ -248,6 +263,19 @@ class PiecewiseConstantBirthDeath(Distribution):
                 sum_term[..., i]
                 - A[..., i] * (one_plus_Bi - term) / (one_plus_Bi + term)
             ) * inv_2lambda[..., i]
+            # probability of being sampled at or after the end of the epoch
+            r = rho[..., i] + (1.0 - rho[..., i]) * one_minus_p[..., i + 1].clone()
+            e = exp_A_term[..., i]
+            one_minus_e = -torch.expm1(-A[..., i] * (t[..., i] - t_i[..., i]))
+            one_minus_p[..., i] = (
+                2.0 * self.psi[..., i] * one_minus_e
+                + r * (A_plus_x[..., i] + e * A_minus_x[..., i])
+            ) / (
+                A_minus_x[..., i]
+                + e * A_plus_x[..., i]
+                + 2.0 * r * self.lambda_[..., i] * one_minus_e
+            )
+        self._one_minus_p = one_minus_p
         return p, A, B
 
     def log_prob(self, node_heights: torch.Tensor):
@@ -313,7 +341,7 @@ class PiecewiseConstantBirthDeath(Distribution):
         )
         # condition on sampling at least one individual
         if self.survival:
-            log_p -= torch.log(1.0 - p[..., 0])
+            log_p -= torch.log(self._one_minus_p[..., 0])
 
         # calculate l(x) with l(t)=1 iff t_{i-1} <= t < t_i
         x = times[..., -1:] - node_heights[..., taxa_shape[-1] :]
